@@ -38,7 +38,8 @@ func (g *genCtx) idOrJunk(n int, pJunk float64) int {
 }
 
 var pwJunk = []string{"wrong", "empty", "hash", "long", "nul", "prefix"}
-var tokJunk = []string{"empty", "flip:0", "flip:255", "flip:256", "flip:511", "flip:37", "flip:300", "trunc", "ext", "trail", "splice", "stored", "zero", "garbage", "missing"}
+var tokJunk = []string{"empty", "flip:0", "flip:255", "flip:256", "flip:511", "flip:37", "flip:300", "trunc", "ext", "trail", "splice", "stored", "zero", "garbage", "missing",
+	"sfx:dot", "sfx:amp", "sfx:space", "sfx:nul", "sfx:dup", "sfx:paren", "pfx:space"}
 
 func (g *genCtx) pw(pRight float64, right int) (int, string) {
 	if right >= 1 && g.chance(pRight) {
@@ -192,7 +193,7 @@ func (g *genCtx) nextEvent(family string) sut.Event {
 	if c.EmailAuth && (c.Has("totp") || c.Has("sms")) {
 		acts = append(acts, "EmailVerifyStart", "EmailVerifyEnd", "EmailVerifyEnd")
 	}
-	acts = append(acts, "UpdatePassword", "AppKey", "Get", "Get")
+	acts = append(acts, "UpdatePassword", "AppKey", "Get", "Get", "BadMethod")
 	e.Act = acts[g.rng.Intn(len(acts))]
 	e.B = g.browser()
 	existing := []string{}
@@ -228,7 +229,7 @@ func (g *genCtx) nextEvent(family string) sut.Event {
 	case "Logout":
 		e.Method = c.LogoutMethod
 		if g.chance(0.25) {
-			e.Method = g.pick("GET", "POST", "DELETE")
+			e.Method = g.pick("GET", "POST", "DELETE", "HEAD", "PUT", "OPTIONS")
 		}
 	case "Tick":
 		e.D = 1 + g.rng.Intn(4)
@@ -286,6 +287,9 @@ func (g *genCtx) nextEvent(family string) sut.Event {
 		e.Junk = g.pick("garbage", "nosep", "forged", "hash")
 	case "AppKey":
 		e.K = g.pick("app1", "app2")
+	case "BadMethod":
+		e.Method = g.pick("HEAD", "PUT", "PATCH", "OPTIONS")
+		e.K = g.pick("logout", "login", "register", "recover", "otpAdd", "totpRemove", "smsValidate", "recoveryRegen")
 	case "Get":
 		e.K = g.pick("login", "register", "recover", "recoverEnd", "otpLogin", "otpAdd", "otpClear", "totpConfirm", "totpRemove",
 			"totpValidate", "smsConfirm", "smsRemove", "smsValidate", "recoveryRegen", "totpEmailVerify", "smsEmailVerify")
